@@ -25,19 +25,23 @@ inductive Kind where
   | threaded | pool | forking | oneshot
   deriving DecidableEq, Repr, Inhabited
 
-/-- what a client sends when the server's authenticator reads its credentials -/
+/-- what a client sends when the server's authenticator reads its credentials: good, wrong, nothing yet (`silent`:
+the authenticator blocks; the credentials may follow, `Op.creds`), or the connection was reset by the client before
+the server looked at it (`reset`: SO_LINGER 0 and close right after the handshake) -/
 inductive Cred where
-  | good | bad | silent
+  | good | bad | silent | reset
   deriving DecidableEq, Repr, Inhabited
 
 /-- requests of well-behaved clients: `ping` (any exposed call), `lend` (a call returning a fresh
 server-side object by reference), `probe oid` (use an object id on this connection) -/
 inductive ReqKind where
   | ping | lend | probe (oid : Nat)
+  /-- the client lets go of an object it was lent (`HANDLE_DEL`) -/
+  | drop (oid : Nat)
   deriving DecidableEq, Repr, Inhabited
 
 inductive Reply where
-  | pong | ref (oid : Nat) | resolved | keyError
+  | pong | ref (oid : Nat) | resolved | keyError | done
   deriving DecidableEq, Repr, Inhabited
 
 /-- what a client has written that the server has not consumed yet, frame by frame -/
@@ -181,6 +185,7 @@ def answer (c : Cli) (seq : Nat) (r : ReqKind) (nextObj : Nat) : Cli × Nat :=
   | .lend => ({ c with replies := (seq, .ref nextObj) :: c.replies, table := nextObj :: c.table }, nextObj + 1)
   | .probe oid =>
     ({ c with replies := (seq, if c.table.contains oid then .resolved else .keyError) :: c.replies }, nextObj)
+  | .drop oid => ({ c with replies := (seq, .done) :: c.replies, table := c.table.filter (· != oid) }, nextObj)
 
 /-- `Connection.serve_all` run by the client's own thread (threaded, one-shot) or child process
 (forking), on what the client has sent: returns the client record (phase `idle`, `blocked` or `done`)
@@ -303,7 +308,10 @@ def serveClient (s : St) (k : Nat) : St := runDedicated (built s k) k
 
 /-- `_authenticate_and_serve_client` -/
 def authServe (s : St) (k : Nat) : St :=
-  if s.cfg.auth then
+  -- a connection the client has already reset: `sock.getpeername()` raises ENOTCONN (in `_serve_client`, or before the
+  -- authenticator is called); the exception leaves through the `finally`
+  if (s.cli k).cred = .reset then afterEnd (s.set k (release (s.cli k))) k
+  else if s.cfg.auth then
     match (s.cli k).cred with
     | .good => serveClient s k
     -- AuthenticationError: logged, `return`; the `finally` shuts down and untracks
@@ -312,6 +320,7 @@ def authServe (s : St) (k : Nat) : St :=
     | .silent =>
       if (s.cli k).inbox.contains .fin then afterEnd (s.set k (release (s.cli k))) k
       else s.set k { s.cli k with phase := .authing }
+    | .reset => afterEnd (s.set k (release (s.cli k))) k
   else serveClient s k
 
 /-! ### pool internals -/
@@ -354,7 +363,9 @@ def poolBuild (s : St) (k : Nat) : St :=
 
 /-- `ThreadPoolServer._accept_method`: the authenticator runs in the accept thread -/
 def poolAccept (s : St) (k : Nat) : St :=
-  if s.cfg.auth then
+  -- reset connection: `getpeername()` / the authenticator's `recv` raise OSError: the `except Exception` branch
+  if (s.cli k).cred = .reset then untrackAll (s.set k (release (s.cli k)))
+  else if s.cfg.auth then
     match (s.cli k).cred with
     | .good => poolBuild s k
     -- `except Exception: ... sock.close(); self.clients.clear()`
@@ -362,6 +373,7 @@ def poolAccept (s : St) (k : Nat) : St :=
     | .silent =>
       if (s.cli k).inbox.contains .fin then untrackAll (s.set k (release (s.cli k)))
       else { (s.set k { s.cli k with phase := .authing }) with acceptBusy := some k }
+    | .reset => untrackAll (s.set k (release (s.cli k)))
   else poolBuild s k
 
 /-! ### the accept loop -/
@@ -411,6 +423,26 @@ def wake (s : St) (k : Nat) : St :=
     else s
   | _ => s
 
+/-- the pool's authenticator (accept thread) got good credentials from the client it was waiting for: the connection
+is built and the accept loop goes on -/
+def poolAuthDone (s : St) (k : Nat) : St :=
+  acceptAll s.ids { (poolBuild s k) with acceptBusy := none }
+
+/-- a client that had connected without credentials sends them now (`c` = good or bad) -/
+def supply (s : St) (k : Nat) (c : Cred) : St :=
+  if (s.cli k).shut then s.set k { s.cli k with cred := c }
+  else match (s.cli k).phase with
+    | .authing =>
+      -- the authenticator's read returns
+      if s.cfg.kind = .pool then
+        (if c = .good then poolAuthDone (s.set k { s.cli k with cred := c }) k
+         else poolAuthGone (s.set k { s.cli k with cred := c }) k)
+      else
+        (if c = .good then serveClient (s.set k { s.cli k with cred := c }) k
+         else afterEnd (s.set k (release { s.cli k with cred := c })) k)
+    -- still in the listen queue: the bytes wait in the socket
+    | _ => s.set k { s.cli k with cred := c }
+
 /-- client `k` writes `items` (nothing arrives once the server side is gone) -/
 def send (s : St) (k : Nat) (items : List Item) : St :=
   if (s.cli k).shut then s
@@ -429,6 +461,8 @@ inductive Op where
   | gracefulClose (k : Nat)
   | abruptClose (k : Nat)
   | serverClose
+  /-- late credentials of a client that connected with `Cred.silent` -/
+  | creds (k : Nat) (c : Cred)
   deriving Repr, Inhabited
 
 /-- may the client still speak the protocol -/
@@ -448,7 +482,8 @@ def step (s : St) : Op → Except Err (St × Obs)
     if (s.cli k).phase != .absent || (cred == .bad && !s.cfg.auth) then .error .valueError
     else if !s.listening then .ok (s, .refused)
     else .ok (acceptAll (s.ids ++ [k])
-                { (s.set k { cred := cred, phase := .backlog, clientOpen := true }) with ids := s.ids ++ [k] }, .ok)
+                { (s.set k { cred := cred, phase := .backlog, clientOpen := cred != .reset,
+                             inbox := if cred = .reset then [.fin] else [] }) with ids := s.ids ++ [k] }, .ok)
   | .call k r =>
     if !usable s k then .error .valueError
     else .ok (send (s.set k { s.cli k with nextSeq := (s.cli k).nextSeq + 1 }) k [.req (s.cli k).nextSeq r],
@@ -463,6 +498,10 @@ def step (s : St) : Op → Except Err (St × Obs)
   | .abruptClose k =>
     if (s.cli k).phase == .absent || !(s.cli k).clientOpen then .error .valueError
     else .ok (send (s.set k { s.cli k with clientOpen := false }) k [.fin], .none)
+  | .creds k c =>
+    if (s.cli k).phase == .absent || !(s.cli k).clientOpen || (s.cli k).cred != .silent || !s.cfg.auth ||
+       !(c == .good || c == .bad) then .error .valueError
+    else .ok (supply s k c, .none)
   | .serverClose =>
     if s.cfg.kind = .pool then
       (match poolClose s with
